@@ -12,4 +12,4 @@ for e in errs: print('translator problem:', e)
 cd coq
 coq_makefile -f _CoqProject -o Makefile > /dev/null
 timeout 3000 make -j16 2>&1 | grep -v '^COQ\|^Closed under' || true
-test -f props/C03.vo && test -f props/C05.vo && test -f props/C11.vo && test -f props/C12.vo && test -f props/C13.vo && test -f props/C20.vo && test -f props/C04.vo && test -f props/C16.vo && test -f props/C17.vo && test -f props/C06.vo && test -f props/C07.vo && test -f props/C09.vo && test -f props/C01.vo && test -f props/C02.vo && test -f props/C08.vo && test -f props/C10.vo && test -f props/C14.vo && test -f props/C15.vo && test -f props/C18.vo
+test -f props/C03.vo && test -f props/C05.vo && test -f props/C11.vo && test -f props/C12.vo && test -f props/C13.vo && test -f props/C19.vo && test -f props/C20.vo && test -f props/C04.vo && test -f props/C16.vo && test -f props/C17.vo && test -f props/C06.vo && test -f props/C07.vo && test -f props/C09.vo && test -f props/C01.vo && test -f props/C02.vo && test -f props/C08.vo && test -f props/C10.vo && test -f props/C14.vo && test -f props/C15.vo && test -f props/C18.vo
